@@ -30,7 +30,7 @@ ASSUMPTIONS = ["payoff value tolerance 4*eps*(|S|+|K|) (one rounded subtraction 
                "conditioning of the log differences", "a comparison within 2 ulp of a strike that is not representable in the "
                "working dtype is counted as ambiguous_skipped, not judged",
                "the functional:* operations are plain value generation and are labelled so"]
-PROBES = ["tie_terminal", "tie_extreme", "pinned", "clause_chain2", "T1", "T2", "forward_start_nonzero", "variance_swap",
+PROBES = ["dt_changed_on_live_objects", "start_changed_on_live_object", "call_flipped_on_live_objects", "tie_terminal", "tie_extreme", "pinned", "clause_chain2", "T1", "T2", "forward_start_nonzero", "variance_swap",
           "relations", "after_cast", "after_resim", "clause_added_midway", "put_uses_min", "functional", "strike_changed_on_live_objects", "maturity_not_multiple_of_dt"]
 DYADIC = [0.5, 0.75, 1.0, 1.0, 1.03125, 1.25]
 
@@ -66,6 +66,8 @@ def generate(rng):
     if tricky and rng.chance(0.5):
         k = rng.choice(tricky)
         start = k * dt if math.floor((k * dt) / dt) != k else k / den
+    if start > M:
+        start = math.floor(M / dt + 1e-9) * dt  # the contract starts within its own life (whatever grid it is later simulated on)
     derivs.append({"id": "d8", "kind": "EuropeanForwardStartOption", "underlier": "p0",
                    "params": {"strike": rng.choice([0.9, 1.0, 1.0, 1.03125]), "maturity": M, "start": start}})
     if steps >= 1:
@@ -80,9 +82,26 @@ def generate(rng):
     ncl = 100
     for _ in range(rng.randint(3, 13)):
         k = rng.wchoice([("check", 6), ("relations", 2), ("pin", 3), ("add_clause", 1), ("cast", 1), ("simulate", 1), ("functional", 1),
-                         ("set_strike", 1)])
+                         ("set_strike", 1), ("redt", 2), ("set_start", 1), ("set_call", 1)])
         if k == "set_strike":
             ops.append({"op": "set_strike", "strike": rng.choice(DYADIC + [0.9, 1.1])})
+            continue
+        if k == "redt":
+            # the underlier's step size is changed on the live object and the market re-simulated: contracts follow the current grid
+            cands = [x for x in [1 / 250, 1 / 365, 1 / 52, 0.01, 0.05, 0.1, dt / 2, dt * 2] if M / x <= 40]
+            if cands:
+                probe = rng.choice(ids + ["d8", "d8"])
+                if rng.chance(0.6):
+                    ops.append({"op": "check", "derivative": probe})
+                ops.append({"op": "redt", "dt": rng.choice(cands), "target": rng.choice(ids), "n_paths": rng.choice([1, 2, 3, 5]),
+                            "torch_seed": rng.seed31()})
+                ops.append({"op": "check", "derivative": probe})
+            continue
+        if k == "set_start":
+            ops.append({"op": "set_start", "frac": rng.choice([0.0, 0.25, 0.5, 0.75, 1.0])})
+            continue
+        if k == "set_call":
+            ops.append({"op": "set_call"})
             continue
         if k == "check":
             ops.append({"op": "check", "derivative": rng.choice(ids)})
@@ -274,6 +293,37 @@ def _execute(program, stats, hist):
                     dspec[did] = dict(dspec[did], params=dict(dspec[did]["params"], strike=op["strike"]))
             stats.probe("strike_changed_on_live_objects")
             hist.add(op="set_strike", strike=op["strike"])
+        elif name == "redt":
+            p0.dt = op["dt"]
+            torch.manual_seed(op["torch_seed"])
+            try:
+                d = world.derivatives[op["target"]]
+                d.simulate(n_paths=op["n_paths"])
+            except Exception as e:
+                raise Inconclusive("simulate raised %r" % (e,))
+            nsim += 1
+            after_resim = True
+            stats.fault("F10_aliasing_resimulate")
+            stats.probe("dt_changed_on_live_objects")
+            hist.add(op="redt", dt=op["dt"], spot=thash(p0.spot))
+        elif name == "set_start":
+            d8 = world.derivatives.get("d8")
+            if d8 is None:
+                continue
+            # a multiple of the current dt (or half-way between two grid points) inside the contract's life
+            steps_now = int(math.floor(float(d8.maturity) / float(p0.dt) + 1e-9))
+            new = math.floor(op["frac"] * steps_now) * float(p0.dt) + (0.5 * float(p0.dt) if op["frac"] in (0.25, 0.75) and steps_now >= 1 and math.floor(op["frac"] * steps_now) < steps_now else 0.0)
+            d8.start = new
+            dspec["d8"] = dict(dspec["d8"], params=dict(dspec["d8"]["params"], start=new))
+            stats.probe("start_changed_on_live_object")
+            hist.add(op="set_start", start=new)
+        elif name == "set_call":
+            for did, dd in world.derivatives.items():
+                if "call" in dspec[did]["params"]:
+                    dd.call = not dd.call
+                    dspec[did] = dict(dspec[did], params=dict(dspec[did]["params"], call=bool(dd.call)))
+            stats.probe("call_flipped_on_live_objects")
+            hist.add(op="set_call")
         elif name == "cast":
             p0.to(DT[op["dtype"]])
             after_cast = True
